@@ -571,7 +571,9 @@ func gen(w *kit.Out, r *kit.Rand, tier string) {
 		for _, n := range sizes {
 			gas := gasQuick
 			if thorough && rs.Chance(40) {
-				gas = 3_000_000_000
+				// well below the 3e9 block maximum: the watchdog (150 s) must stay far
+				// from what a gas-bounded run can take on a loaded machine
+				gas = 300_000_000
 			}
 			switch kind {
 			case "const-string-double":
